@@ -23,6 +23,7 @@ N10 getattr(x, "name") / setattr(x, "name", v) with an identifier literal  ==>  
 N11 boolean constants produced by substitution are folded (True or x, if False: ..., see _FoldBool)
 
 N12 module-level NAME = <number> (bound once) read in a function of the module where it is not shadowed  ==>  the number
+N15 `return self._helper(a, b)` (private method of the same class, tail position)  ==>  the helper's body (see _inline_tail_method_calls)
 N14 <number> (+|-|*) <number>  ==>  the number;   not (a not in b) ==> a in b,  not (a is b) ==> a is not b;   `if not not x` ==> `if x`   (part of the _FoldBool pass)
 
 N2  dict.update with keywords / a literal dict on such an attribute, as a statement
@@ -1200,6 +1201,234 @@ def _inline_noreturn(tree):
     return done
 
 
+def _inline_method_selectors(tree):
+    """N13 for methods:  T = self._pick(a, expr)  where `_pick` is a private, undecorated method of the same class whose body is a decision tree of returns
+    ==> the tree with `T = <leaf>` at the leaves.  T is a name or an attribute chain on a name.  Arguments are simple (name / constant / attribute chain), or any
+    expression whose parameter occurs exactly once in the helper, namely in the test at the root of the tree (so it is still evaluated exactly once, first)."""
+    done = 0
+
+    def simple(a):
+        while isinstance(a, ast.Attribute):
+            a = a.value
+        return isinstance(a, (ast.Name, ast.Constant))
+
+    for cd in [n for n in ast.walk(tree) if isinstance(n, ast.ClassDef)]:
+        cnt = {}
+        for st in cd.body:
+            if isinstance(st, ast.FunctionDef):
+                cnt[st.name] = cnt.get(st.name, 0) + 1
+        sels = {}
+        for st in cd.body:
+            if not (isinstance(st, ast.FunctionDef) and cnt[st.name] == 1 and not st.decorator_list and st.name.startswith("_") and not st.name.startswith("__") and st.args.args
+                    and not st.args.vararg and not st.args.kwarg and not _protected(st.name, cd.name)):
+                continue
+            body = list(st.body)
+            if body and isinstance(body[0], ast.Expr) and isinstance(body[0].value, ast.Constant) and isinstance(body[0].value.value, str):
+                body = body[1:]
+            t = _return_tree(body)
+            if t is None or t[0] == "ret":
+                continue
+            nodes = [x for b in body for x in ast.walk(b)]
+            if any(isinstance(x, (ast.Lambda, ast.NamedExpr, ast.Yield, ast.YieldFrom, ast.Await, ast.ListComp, ast.SetComp, ast.DictComp, ast.GeneratorExp)) for x in nodes):
+                continue
+            if any(isinstance(x, ast.Attribute) and x.attr == st.name for x in nodes):
+                continue
+            sels[st.name] = (st, t)
+        if not sels:
+            continue
+        for w in [st for st in cd.body if isinstance(st, ast.FunctionDef) and st.args.args]:
+            selfn = w.args.args[0].arg
+            sc = _Scope()
+            for st in w.body:
+                sc.visit(st)
+            wlocal = set(sc.bind) | sc.bad | {a.arg for a in w.args.posonlyargs + w.args.args + w.args.kwonlyargs}
+
+            def expand(st):
+                nonlocal done
+                if not (isinstance(st, ast.Assign) and len(st.targets) == 1 and simple(st.targets[0]) and not isinstance(st.targets[0], ast.Constant)):
+                    return None
+                call = st.value
+                if not (isinstance(call, ast.Call) and isinstance(call.func, ast.Attribute) and isinstance(call.func.value, ast.Name) and call.func.value.id == selfn and call.func.attr in sels):
+                    return None
+                h, t = sels[call.func.attr]
+                if h is w or any(isinstance(a, ast.Starred) for a in call.args) or any(k.arg is None for k in call.keywords):
+                    return None
+                pos = h.args.posonlyargs + h.args.args
+                kwonly = h.args.kwonlyargs
+                if len(call.args) + 1 > len(pos):
+                    return None
+                bind = {pos[0].arg: ast.Name(id=selfn, ctx=ast.Load())}
+                bind.update({prm.arg: a for prm, a in zip(pos[1:], call.args)})
+                names = {a.arg for a in pos + kwonly}
+                for k in call.keywords:
+                    if k.arg not in names or k.arg in bind:
+                        return None
+                    bind[k.arg] = k.value
+                defaults = dict(zip([a.arg for a in pos][len(pos) - len(h.args.defaults):], h.args.defaults))
+                defaults.update({a.arg: d for a, d in zip(kwonly, h.args.kw_defaults) if d is not None})
+                for prm in names - set(bind):
+                    if not isinstance(defaults.get(prm), ast.Constant):
+                        return None
+                    bind[prm] = defaults[prm]
+                body_nodes = [x for b in h.body for x in ast.walk(b)]
+                for prm, a in bind.items():
+                    if simple(a):
+                        continue
+                    occ = [x for x in body_nodes if isinstance(x, ast.Name) and x.id == prm]
+                    in_root = [x for x in ast.walk(t[1]) if isinstance(x, ast.Name) and x.id == prm]
+                    if len(occ) != 1 or len(in_root) != 1:
+                        return None
+                for x in body_nodes:
+                    if isinstance(x, ast.Name) and x.id not in names and x.id in wlocal:
+                        return None
+                tgt = st.targets[0]
+                mk = lambda e: ast.Assign(targets=[copy.deepcopy(tgt)], value=e)
+                sub = _ConstSubst(bind)
+                new = [sub.visit(x) for x in _tree_stmts(t, mk)]
+                # the substitution must not touch the assignment targets themselves (they are caller expressions): rebuild them
+                for x in new:
+                    for y in ast.walk(x):
+                        if isinstance(y, ast.Assign):
+                            y.targets = [copy.deepcopy(tgt)]
+                        ast.copy_location(y, st)
+                done += 1
+                _INLINED.append(h.name)
+                return new
+
+            class T(ast.NodeTransformer):
+                def _body(self_, stmts):
+                    out = []
+                    for st in stmts:
+                        if isinstance(st, (ast.FunctionDef, ast.AsyncFunctionDef, ast.ClassDef)):
+                            out.append(st)
+                            continue
+                        st = self_.generic_visit(st)
+                        rep = expand(st)
+                        out += rep if rep is not None else [st]
+                    return out
+
+                def generic_visit(self_, node):
+                    for fld in ("body", "orelse", "finalbody"):
+                        v = getattr(node, fld, None)
+                        if isinstance(v, list) and v and isinstance(v[0], ast.stmt):
+                            setattr(node, fld, self_._body(v))
+                    for h_ in getattr(node, "handlers", []) or []:
+                        h_.body = self_._body(h_.body)
+                    return node
+            T().generic_visit(w)
+    return done
+
+
+def _inline_tail_method_calls(tree):
+    """N15: `return self._helper(a, b)` in a method, where `_helper` is a private method of the same class (defined once there, undecorated, no nested scopes/yield),
+    is replaced by the helper's body with its parameters replaced by the (simple) arguments; a body that can fall off its end gets `return None` appended.
+    The statement is in tail position, so nothing of the caller runs after it; side conditions: the helper does not assign its parameters, the names it reads
+    from the module are not locals of the caller, it does not call itself.  (Dynamic dispatch: a subclass overriding the private helper would see a difference; the
+    package defines no such override, and names the rules know are never inlined.)"""
+    done = 0
+
+    def simple(a):
+        while isinstance(a, ast.Attribute):
+            a = a.value
+        return isinstance(a, (ast.Name, ast.Constant))
+
+    for cd in [n for n in ast.walk(tree) if isinstance(n, ast.ClassDef)]:
+        cnt = {}
+        for st in cd.body:
+            if isinstance(st, ast.FunctionDef):
+                cnt[st.name] = cnt.get(st.name, 0) + 1
+        helpers = {st.name: st for st in cd.body if isinstance(st, ast.FunctionDef) and cnt[st.name] == 1 and not st.decorator_list and st.name.startswith("_") and not st.name.startswith("__")
+                   and st.args.args and not st.args.vararg and not st.args.kwarg and not _protected(st.name, cd.name)
+                   and not any(isinstance(x, (ast.FunctionDef, ast.AsyncFunctionDef, ast.Lambda, ast.ClassDef, ast.Global, ast.Nonlocal, ast.Yield, ast.YieldFrom, ast.Await)) for b in st.body for x in ast.walk(b))}
+        if not helpers:
+            continue
+        for w in [st for st in cd.body if isinstance(st, ast.FunctionDef) and st.args.args]:
+            selfn = w.args.args[0].arg
+            sc = _Scope()
+            for st in w.body:
+                sc.visit(st)
+            wlocal = set(sc.bind) | sc.bad | {a.arg for a in w.args.posonlyargs + w.args.args + w.args.kwonlyargs}
+
+            def expand(st):
+                nonlocal done
+                if not (isinstance(st, ast.Return) and isinstance(st.value, ast.Call) and isinstance(st.value.func, ast.Attribute) and isinstance(st.value.func.value, ast.Name)
+                        and st.value.func.value.id == selfn and st.value.func.attr in helpers):
+                    return None
+                call = st.value
+                h = helpers[call.func.attr]
+                if h is w or any(isinstance(a, ast.Starred) for a in call.args) or any(k.arg is None for k in call.keywords):
+                    return None
+                if not all(simple(a) for a in call.args) or not all(simple(k.value) for k in call.keywords):
+                    return None
+                if any(isinstance(x, ast.Call) and isinstance(x.func, ast.Attribute) and x.func.attr == h.name for b in h.body for x in ast.walk(b)):
+                    return None
+                pos = h.args.posonlyargs + h.args.args
+                kwonly = h.args.kwonlyargs
+                if len(call.args) + 1 > len(pos):
+                    return None
+                bind = {pos[0].arg: ast.Name(id=selfn, ctx=ast.Load())}
+                bind.update({prm.arg: a for prm, a in zip(pos[1:], call.args)})
+                names = {a.arg for a in pos + kwonly}
+                for k in call.keywords:
+                    if k.arg not in names or k.arg in bind:
+                        return None
+                    bind[k.arg] = k.value
+                defaults = dict(zip([a.arg for a in pos][len(pos) - len(h.args.defaults):], h.args.defaults))
+                defaults.update({a.arg: d for a, d in zip(kwonly, h.args.kw_defaults) if d is not None})
+                for prm in names - set(bind):
+                    if not isinstance(defaults.get(prm), ast.Constant):
+                        return None
+                    bind[prm] = defaults[prm]
+                hs = _Scope()
+                for b in h.body:
+                    hs.visit(b)
+                hlocal = set(hs.bind) | hs.bad
+                if hlocal & set(bind):
+                    return None
+                for x in (x for b in h.body for x in ast.walk(b)):
+                    if isinstance(x, ast.Name) and x.id not in names and x.id not in hlocal and x.id in wlocal:
+                        return None      # a module-level name of the helper is a local of the caller
+                body = list(h.body)
+                if body and isinstance(body[0], ast.Expr) and isinstance(body[0].value, ast.Constant) and isinstance(body[0].value.value, str):
+                    body = body[1:]
+                if not body:
+                    return None
+                sub = _ConstSubst(bind)
+                new = [sub.visit(copy.deepcopy(b)) for b in body]
+                if not isinstance(new[-1], (ast.Return, ast.Raise)):
+                    new.append(ast.Return(value=ast.Constant(value=None)))
+                for x in new:
+                    for y in ast.walk(x):
+                        if not hasattr(y, "lineno"):
+                            ast.copy_location(y, st)
+                done += 1
+                _INLINED.append(h.name)
+                return new
+
+            class T(ast.NodeTransformer):
+                def _body(self_, stmts):
+                    out = []
+                    for st in stmts:
+                        if isinstance(st, (ast.FunctionDef, ast.AsyncFunctionDef, ast.ClassDef)):
+                            out.append(st)
+                            continue
+                        st = self_.generic_visit(st)
+                        rep = expand(st)
+                        out += rep if rep is not None else [st]
+                    return out
+
+                def generic_visit(self_, node):
+                    for fld in ("body", "orelse", "finalbody"):
+                        v = getattr(node, fld, None)
+                        if isinstance(v, list) and v and isinstance(v[0], ast.stmt):
+                            setattr(node, fld, self_._body(v))
+                    for h_ in getattr(node, "handlers", []) or []:
+                        h_.body = self_._body(h_.body)
+                    return node
+            T().generic_visit(w)
+    return done
+
+
 _ARRAY_MUTATORS = {"fill", "put", "resize", "itemset", "partition", "setflags", "byteswap", "setfield"}
 
 
@@ -1345,10 +1574,28 @@ def _inline_selectors(tree):
     return done
 
 
+def _is_const_arith(e):
+    ok = False
+    for x in ast.walk(e):
+        if isinstance(x, ast.BinOp) and isinstance(x.op, (ast.Add, ast.Sub, ast.Mult, ast.Div)):
+            ok = True
+        elif isinstance(x, ast.UnaryOp) and isinstance(x.op, (ast.USub, ast.UAdd)):
+            pass
+        elif isinstance(x, ast.Constant) and isinstance(x.value, (int, float)) and not isinstance(x.value, bool):
+            pass
+        elif isinstance(x, ast.Name) and isinstance(x.ctx, ast.Load) and x.id.isupper():
+            pass
+        elif isinstance(x, (ast.operator, ast.unaryop, ast.expr_context)):
+            pass
+        else:
+            return False
+    return ok
+
+
 def _fold_numeric_constants(tree):
     """N12: a module-level  NAME = <number>  (bound once in the module, no `global NAME` anywhere) read inside a function of the same module, where NAME is not a
     parameter or local of that function, is replaced by the number (a literal moved to a named constant reads like the literal)."""
-    counts, vals = {}, {}
+    counts, vals, exprs = {}, {}, {}
     for st in tree.body:
         if isinstance(st, ast.Assign):
             for t in st.targets:
@@ -1357,6 +1604,13 @@ def _fold_numeric_constants(tree):
                         counts[x.id] = counts.get(x.id, 0) + 1
             if len(st.targets) == 1 and isinstance(st.targets[0], ast.Name) and isinstance(st.value, ast.Constant) and isinstance(st.value.value, (int, float)) and not isinstance(st.value.value, bool):
                 vals[st.targets[0].id] = st.value
+            elif (len(st.targets) == 1 and isinstance(st.targets[0], ast.Name) and isinstance(st.value, ast.UnaryOp) and isinstance(st.value.op, (ast.USub, ast.UAdd))
+                  and isinstance(st.value.operand, ast.Constant) and isinstance(st.value.operand.value, (int, float)) and not isinstance(st.value.operand.value, bool)):
+                vals[st.targets[0].id] = st.value       # NAME = -1
+            elif len(st.targets) == 1 and isinstance(st.targets[0], ast.Name) and _is_const_arith(st.value):
+                # NAME = 1.0 - ERROR_TOLERANCE : arithmetic over numbers and other module-level names (imported constants); evaluating it at the use gives the
+                # same value as long as those names are bound once in the module and not shadowed where NAME is read (checked below)
+                exprs[st.targets[0].id] = st.value
         elif isinstance(st, (ast.AugAssign, ast.AnnAssign)) and isinstance(st.target, ast.Name):
             counts[st.target.id] = counts.get(st.target.id, 0) + 2
     for x in ast.walk(tree):
@@ -1364,7 +1618,21 @@ def _fold_numeric_constants(tree):
             for g in x.names:
                 vals.pop(g, None)
     vals = {k: v for k, v in vals.items() if counts.get(k) == 1}
-    if not vals:
+    # names an arithmetic constant refers to: imported (never assigned in the module) or assigned once
+    imported = set()
+    for st in tree.body:
+        if isinstance(st, (ast.Import, ast.ImportFrom)):
+            imported |= {(a.asname or a.name).split(".")[0] for a in st.names}
+    for k, e in list(exprs.items()):
+        inner = {x.id for x in ast.walk(e) if isinstance(x, ast.Name)}
+        if counts.get(k) != 1 or not all((n in imported and counts.get(n, 0) == 0) or (n in vals) for n in inner):
+            exprs.pop(k)
+    for x in ast.walk(tree):
+        if isinstance(x, (ast.Global, ast.Nonlocal)):
+            for g in x.names:
+                exprs.pop(g, None)
+    _EXPR_INNER = {k: {x.id for x in ast.walk(e) if isinstance(x, ast.Name)} for k, e in exprs.items()}
+    if not vals and not exprs:
         return 0
     done = 0
     for fn in [n for n in ast.walk(tree) if isinstance(n, (ast.FunctionDef, ast.AsyncFunctionDef))]:
@@ -1373,6 +1641,7 @@ def _fold_numeric_constants(tree):
             sc.visit(st)
         shadow = set(sc.bind) | sc.bad | {a.arg for a in fn.args.posonlyargs + fn.args.args + fn.args.kwonlyargs}
         use = {k: v for k, v in vals.items() if k not in shadow}
+        use.update({k: e for k, e in exprs.items() if k not in shadow and not (_EXPR_INNER[k] & shadow)})
         if not use:
             continue
         before = sum(1 for x in ast.walk(fn) if isinstance(x, ast.Name) and x.id in use and isinstance(x.ctx, ast.Load))
@@ -1400,7 +1669,8 @@ def normalise(tree, relpath=None):
         if not k:
             break
     n_inlined = n_inlined0 + _inline_wrappers(tree)
-    n_sel = _inline_selectors(tree)
+    n_sel = _inline_selectors(tree) + _inline_method_selectors(tree)
+    n_tail = _inline_tail_method_calls(tree)
     tables = _module_tables(tree)
     n_unrolled = 0
     for fn in [n for n in ast.walk(tree) if isinstance(n, (ast.FunctionDef, ast.AsyncFunctionDef))]:
@@ -1426,4 +1696,4 @@ def normalise(tree, relpath=None):
     _Updates().visit(tree)
     n_upd = sum(1 for n in ast.walk(tree) if isinstance(n, ast.Assign)) - before
     ast.fix_missing_locations(tree)
-    return tree, {"aliases_inlined": n_alias, "update_keys_split": n_upd, "table_loops_unrolled": n_unrolled, "wrappers_inlined": n_inlined, "expression_helpers_inlined": n_expr, "noreturn_helpers_inlined": n_noret, "selector_helpers_inlined": n_sel, "flags_inlined": n_flags, "dict_literals_propagated": n_dict, "any_all_expanded": aa.count, "getattr_setattr_folded": gs.count, "numeric_constants_folded": n_const, "boolean_constants_folded": fb.count, "inlined_helpers": sorted(set(_INLINED))}
+    return tree, {"aliases_inlined": n_alias, "update_keys_split": n_upd, "table_loops_unrolled": n_unrolled, "wrappers_inlined": n_inlined, "expression_helpers_inlined": n_expr, "noreturn_helpers_inlined": n_noret, "selector_helpers_inlined": n_sel, "tail_method_calls_inlined": n_tail, "flags_inlined": n_flags, "dict_literals_propagated": n_dict, "any_all_expanded": aa.count, "getattr_setattr_folded": gs.count, "numeric_constants_folded": n_const, "boolean_constants_folded": fb.count, "inlined_helpers": sorted(set(_INLINED))}
